@@ -147,12 +147,26 @@ def impl(case):
                     f.write("R\t1\t99995\t99999\tREP1\n")
                 for h in mine:
                     f.write("".join(sorted(vlines(h).splitlines(True), key=lambda l: int(l.split("\t")[2]))))
+        elif C.plumb(case, "v-lines", 4) == 3:
+            # V lines first (what the documented `sort -k2,4` gives when haplotype IDs sort before chromosome names), or each
+            # haplotype's H line between its own V lines: a V line belongs to the haplotype it names wherever it stands
+            if case["repeat"]:
+                f.write("R\t1\t5\t9\tREP1\n")
+            if C.plumb(case, "v-first-kind", 2) == 0:
+                for h in case["haps"]:
+                    f.write(vlines(h))
+                for h in case["haps"]:
+                    f.write(hline(h))
+            else:
+                for h in case["haps"]:
+                    vl = vlines(h).splitlines(True)
+                    f.write("".join(vl[: (len(vl) + 1) // 2]) + hline(h) + "".join(vl[(len(vl) + 1) // 2 :]))
         else:
             for h in case["haps"]:
                 f.write(hline(h))
             if case["repeat"]:
                 f.write("R\t1\t5\t9\tREP1\n")
-            if C.plumb(case, "v-lines", 3) == 0:
+            if C.plumb(case, "v-lines", 4) == 0:
                 # the V lines of all haplotypes in one run ordered by position (what sorting a .hap file by coordinate gives): the
                 # lines of one haplotype are then separated by lines of the others
                 allv = [l for h in case["haps"] for l in vlines(h).splitlines(True)]
